@@ -806,6 +806,9 @@ func probeVariant() string {
 }
 
 func main() {
+	// own network namespace (or, failing that, an exclusive lock): no port can be taken by, and no
+	// connection can come from, another run on this machine; recorded ports of a replay are always free
+	vh.IsolateNet("c16")
 	zerolog.SetGlobalLevel(zerolog.Disabled)
 	seed := flag.Uint64("seed", 1, "PRNG seed")
 	n := flag.Int("n", 100, "random scenarios")
